@@ -20,7 +20,10 @@ theorem step_preserves_inv (s : Sys) (op : Op) (h : Inv s) : Inv (step s op).1 :
   | loadTree o => exact inv_loadTree h o
   | eventPatch o c cp rs =>
     simp only [step]
-    unfold eventPatch
+    rcases eventPatch_guard s o c cp rs with hg | ⟨hs, _⟩
+    case inr => rw [hs]; exact h
+    rw [hg]
+    unfold eventPatchCore
     cases c with
     | none => exact inv_patchChecked h o cp rs
     | some c =>
@@ -158,7 +161,10 @@ theorem stored_commit_is_hash_of_bytes (s : Sys) (op : Op) (h : StoreWF s) (hop 
   | loadTree o => exact h
   | eventPatch o c cp rs =>
     simp only [step]
-    unfold eventPatch
+    rcases eventPatch_guard s o c cp rs with hg | ⟨hs, _⟩
+    case inr => rw [hs]; exact h
+    rw [hg]
+    unfold eventPatchCore
     cases c with
     | none => exact storeWF_patchChecked h o cp rs hop
     | some c =>
@@ -253,7 +259,10 @@ theorem other_logs_untouched (s : Sys) (op : Op) (o' : Nat) (hne : o' ≠ op.own
     simp [step, loadTree, Sys.setTree, Sys.rowsOf, hn]
   | eventPatch o c cp rs =>
     simp only [step]
-    unfold eventPatch
+    rcases eventPatch_guard s o c cp rs with hg | ⟨hs, _⟩
+    case inr => rw [hs]; exact ⟨rfl, rfl⟩
+    rw [hg]
+    unfold eventPatchCore
     cases c with
     | none => exact hpc s o cp rs hne
     | some c =>
